@@ -65,6 +65,7 @@ type jop struct {
 	Ptime   int64   `json:"ptime,omitempty"`
 	Liq     int64   `json:"liq,omitempty"`
 	Cfg     *cfg    `json:"cfg,omitempty"`
+	X       *upx    `json:"proposal,omitempty"`
 	Reg     bool    `json:"registered,omitempty"`
 }
 
@@ -328,16 +329,75 @@ func (h *hist) joinverifier(u, interx int, name string) bool {
 // ProposalUpsertDapp through the real gov msg server, the real gov EndBlocker and the real proposal router:
 // submitted by controller 1, all three controllers vote yes, voting period and enactment period pass.
 // The gov blocks run on later block times than the history's clock, which is restored afterwards.
-func (h *hist) upsert(name string, total int64, status int, ctime int64, p params, ptime, liq int64) bool {
+// the fields of an upsert proposal the model does not carry (they must not matter for bonds and the pool)
+type upx struct {
+	Fee      string  `json:"fee"` // "nil" = unset
+	Ctrl     []int   `json:"controllers"`
+	BondDen  string  `json:"bond_denom"`
+	Quorum   string  `json:"quorum"`
+	VotePer  uint64  `json:"vote_period"`
+	VoteEn   uint64  `json:"vote_enactment"`
+	ExecMin  uint64  `json:"executors_min"`
+	ExecMax  uint64  `json:"executors_max"`
+	VerMin   uint64  `json:"verifiers_min"`
+	UpdMax   uint64  `json:"update_time_max"`
+	Bins     int     `json:"bins"`
+	Team     int     `json:"team_reserve"`
+	PostPaid bool    `json:"post_mint_paid"`
+	Text     string  `json:"text"`
+}
+
+func (h *hist) randUpx(r *hx.Rng) upx {
+	return upx{Fee: []string{"nil", "0", "0.01", "1", "-0.5", "-0.01", "-0.000000000000000001", "1.5", "0.003"}[r.Intn(9)],
+		Ctrl:    [][]int{{0, 1, 2}, {0, 1, 2}, {0}, {1, 2}, {2}, {}}[r.Intn(6)],
+		BondDen: []string{"ukex", "ukex", "foreign"}[r.Intn(3)], Quorum: []string{"0.3", "1"}[r.Intn(2)],
+		VotePer: []uint64{10, 5, 1}[r.Intn(3)], VoteEn: []uint64{10, 5, 1}[r.Intn(3)],
+		ExecMin: uint64(r.Intn(3)), ExecMax: []uint64{0, 1, 5, 1 << 40}[r.Intn(4)], VerMin: uint64(r.Intn(3)), UpdMax: []uint64{0, 60, 1 << 50}[r.Intn(3)],
+		Bins: r.Intn(3), Team: []int{4, 4, 0}[r.Intn(3)], PostPaid: r.Bool(), Text: []string{"", "Some Text", "x"}[r.Intn(3)]}
+}
+
+// ProposalUpsertDapp through the real gov msg server, the real gov EndBlocker and the real proposal router:
+// submitted by the first of users 0..2 who is a controller of the stored dApp, every one of them votes yes,
+// voting period and enactment period pass.  The gov blocks run on later block times than the history's
+// clock, which is restored afterwards.  Every field of the record is the proposal's own.
+func (h *hist) upsert(name string, total int64, status int, ctime int64, p params, ptime, liq int64, x upx) bool {
 	e := h.e
 	d := h.dappOf(name, p)
-	d.TotalBond = coin("ukex", total)
+	d.TotalBond = coin(x.BondDen, total)
 	d.Status = l2types.DappStatus(status)
 	d.CreationTime = uint64(ctime)
 	d.PremintTime = uint64(ptime)
 	d.LiquidationStart = uint64(liq)
+	if x.Fee == "nil" {
+		d.PoolFee = sdk.Dec{}
+	} else {
+		d.PoolFee = decStr(x.Fee)
+	}
+	d.Controllers.Whitelist.Addresses = nil
+	for _, i := range x.Ctrl {
+		d.Controllers.Whitelist.Addresses = append(d.Controllers.Whitelist.Addresses, e.ustr[i])
+	}
+	d.VoteQuorum, d.VotePeriod, d.VoteEnactment = decStr(x.Quorum), x.VotePer, x.VoteEn
+	d.ExecutorsMin, d.ExecutorsMax, d.VerifiersMin, d.UpdateTimeMax = x.ExecMin, x.ExecMax, x.VerMin, x.UpdMax
+	for i := 0; i < x.Bins; i++ {
+		d.Bin = append(d.Bin, l2types.BinaryInfo{Name: fmt.Sprintf("b%d", i), Hash: fmt.Sprintf("h%d", i)})
+	}
+	d.TeamReserve, d.PostMintPaid = e.ustr[x.Team], x.PostPaid
+	d.Description, d.Website, d.Logo, d.Social, d.Docs = x.Text, x.Text, x.Text, x.Text, x.Text
+	// who may propose: the controllers of the record as it is stored now
+	cur := e.k.GetDapp(h.c, name)
+	proposer := -1
+	for i := 0; i < 3 && cur.Name != ""; i++ {
+		if proposer < 0 && e.k.IsAllowedAddress(h.c, e.users[i], cur.Controllers) {
+			proposer = i
+		}
+	}
+	allowed := proposer >= 0
+	if proposer < 0 {
+		proposer = 1
+	}
 	ok, errs := h.tx(func(c sdk.Context) error {
-		m, err := govtypes.NewMsgSubmitProposal(e.users[1], "upsert", "upsert", &l2types.ProposalUpsertDapp{Sender: e.ustr[1], Dapp: d})
+		m, err := govtypes.NewMsgSubmitProposal(e.users[proposer], "upsert", "upsert", &l2types.ProposalUpsertDapp{Sender: e.ustr[proposer], Dapp: d})
 		if err != nil {
 			return err
 		}
@@ -345,10 +405,8 @@ func (h *hist) upsert(name string, total int64, status int, ctime int64, p param
 		if err != nil {
 			return err
 		}
-		for i := 0; i < 3; i++ {
-			if _, err := e.gms.VoteProposal(sdk.WrapSDKContext(c), govtypes.NewMsgVoteProposal(resp.ProposalID, e.users[i], govtypes.OptionYes, sdk.ZeroDec())); err != nil {
-				return err
-			}
+		for i := 0; i < 3; i++ { // non-controllers are refused, that is not an error of the scenario
+			e.gms.VoteProposal(sdk.WrapSDKContext(c), govtypes.NewMsgVoteProposal(resp.ProposalID, e.users[i], govtypes.OptionYes, sdk.ZeroDec()))
 		}
 		c2 := c.WithBlockHeight(c.BlockHeight() + 4).WithBlockTime(c.BlockTime().Add(11 * time.Second))
 		gov.EndBlocker(c2, e.gk)
@@ -362,17 +420,55 @@ func (h *hist) upsert(name string, total int64, status int, ctime int64, p param
 	})
 	if p.LpOK {
 		found := false
-		for _, x := range h.dens {
-			found = found || x == "lp/"+p.Denom
+		for _, y := range h.dens {
+			found = found || y == "lp/"+p.Denom
 		}
 		if !found {
 			h.dens = append(h.dens, "lp/"+p.Denom)
 		}
 	}
-	pp := p
-	h.observe(jop{Op: "upsert", Name: name, Total: total, Status: status, Ctime: ctime, Ptime: ptime, Liq: liq, P: &pp},
-		fmt.Sprintf("OUpsert %s %s %d %s %s %s %s", hx.Str(name), hx.Z(total), status, hx.Z(ctime), paramsCoq(p), hx.Z(ptime), hx.Z(liq)), ok, errs)
+	// read back the pool fee the handler stored: the model follows it
+	fa := sdk.ZeroDec()
+	if after := e.k.GetDapp(h.c, name); after.Name != "" && !after.PoolFee.IsNil() {
+		fa = after.PoolFee
+	}
+	pp, xx := p, x
+	pp.Fee = x.Fee
+	if x.Fee == "nil" {
+		pp.Fee = "0"
+	}
+	h.observe(jop{Op: "upsert", Name: name, Total: total, Status: status, Ctime: ctime, Ptime: ptime, Liq: liq, P: &pp, X: &xx, Fee: fa.String(), Reg: allowed},
+		fmt.Sprintf("OUpsert %s %s %d %s %s %s %s %s %s", hx.Str(name), hx.Z(total), status, hx.Z(ctime), paramsCoq(pp), hx.Z(ptime), hx.Z(liq), hx.B(allowed), hx.ZBig(fa.BigInt())), ok, errs)
 	return ok
+}
+
+// what the three LP message handlers do once they find the dApp: the record is read from the store and the
+// keeper function is called with the STORED pool fee; plus the messages themselves
+func (h *hist) poolOpsAsHandlers(r *hx.Rng, names []string) {
+	for _, n := range names {
+		d := h.e.k.GetDapp(h.c, n)
+		if d.Name == "" || d.Status == l2types.Bootstrap || d.PoolFee.IsNil() {
+			continue
+		}
+		u := r.Intn(3)
+		den := d.LpToken()
+		fee := func() string { return h.e.k.GetDapp(h.c, n).PoolFee.String() }
+		h.lpmsg(0, u, n, "", "ukex", 1000, "1")
+		h.kswap(u, n, false, []int64{1000, 250000, 1}[r.Intn(3)], fee())
+		if b := h.lpBal(u, den); b > 0 {
+			h.lpmsg(1, u, n, "", den, b, "1")
+			h.kredeem(u, n, den, r.Range(1, b), fee())
+		}
+		h.kswap(u, n, false, r.Range(1000, 100000), fee())
+		if b := h.lpBal(u, den); b > 1 {
+			n2 := names[r.Intn(len(names))]
+			h.lpmsg(2, u, n, n2, den, 1, "1")
+			h.kconvert(u, n, n2, den, r.Range(1, b/2+1))
+		}
+		if b := h.lpBal(u, den); b > 0 {
+			h.kredeem(u, n, den, b, fee())
+		}
+	}
 }
 
 // keeper level: the record is stored with another status / PremintTime / LiquidationStart (absolute unix times)
@@ -971,7 +1067,7 @@ func probes(e *env, newHist func(min, max, dur uint64) *hist) (prefix, zero, cre
 		h := newHist(1, 10, 1000)
 		p := params{Denom: "probeu", LpOK: true, Ratio: "1", Fee: "0", Drip: 100}
 		h.create(0, "probeu", 20000, false, p)
-		if h.upsert("probeu", 999, 0, h.t0, p, 0, 0) {
+		if h.upsert("probeu", 999, 0, h.t0, p, 0, 0, upx{Fee: "0", Ctrl: []int{0, 1, 2}, BondDen: "ukex", Quorum: "0.3", VotePer: 10, VoteEn: 10, Team: 4}) {
 			ups = e.k.GetDapp(h.c, "probeu").TotalBond.Amount.Int64() == 999
 		}
 	}
@@ -1054,17 +1150,22 @@ func (h *hist) timeBoundaries(r *hx.Rng, names []string, cf cfg) {
 
 // passed upsert proposals (real gov flow); rawTree: the tree stores the proposal's record wholesale
 func (h *hist) upserts(r *hx.Rng, names []string, rawTree bool) {
-	for i := 0; i < 2+r.Intn(3); i++ {
+	// everybody holds some LP of the launched dApps first
+	for u := 0; u < 3; u++ {
+		h.kswap(u, names[r.Intn(len(names))], false, []int64{250000, 1000, 40000}[r.Intn(3)], "0")
+	}
+	for i := 0; i < 2+r.Intn(4); i++ {
 		n := names[r.Intn(len(names))]
-		if r.Chance(10) {
+		if r.Chance(8) {
 			n = "nosuch"
 		}
 		d := h.e.k.GetDapp(h.c, n)
 		p := h.newParams(r, true)
+		x := h.randUpx(r)
 		total, status, ctime, ptime, liq := int64(0), 0, h.t0+h.now, int64(0), int64(0)
 		if d.Name != "" {
 			total, status, ctime, ptime, liq = d.TotalBond.Amount.Int64(), int(d.Status), int64(d.CreationTime), int64(d.PremintTime), int64(d.LiquidationStart)
-			if r.Chance(60) { // keep the LP denomination
+			if r.Chance(70) { // keep the LP denomination
 				p.Denom = strings.TrimPrefix(d.LpToken(), "lp/")
 				p.LpOK = sdk.ValidateDenom("lp/"+p.Denom) == nil
 			}
@@ -1075,16 +1176,19 @@ func (h *hist) upserts(r *hx.Rng, names []string, rawTree bool) {
 		switch r.Intn(4) {
 		case 0: // description only
 		case 1, 2: // the bookkeeping fields too
-			total = []int64{0, total + 1, total * 2, total / 2, 1 << 40}[r.Intn(5)]
+			total = []int64{0, total + 1, total * 2, total / 2, 1 << 40, -5}[r.Intn(6)]
 			status = []int{0, 1, 2, 3}[r.Intn(4)]
 			ctime = h.t0 + h.now - r.Range(0, 2000)
 			ptime = h.t0 + h.now - r.Range(0, 200)
+			liq = []int64{0, h.t0 + h.now, 1}[r.Intn(3)]
 		default: // status alone
 			if status != 0 {
 				status = []int{1, 2, 3}[r.Intn(3)]
 			}
 		}
-		h.upsert(n, total, status, ctime, p, ptime, liq)
+		h.upsert(n, total, status, ctime, p, ptime, liq, x)
+		// the pool is used right after the proposal took effect, the way the message handlers would
+		h.poolOpsAsHandlers(r, names)
 		if r.Bool() {
 			h.bond(r.Intn(3), n, r.Range(1, 5000), false)
 		}
